@@ -97,6 +97,20 @@ def handle (ws : List String) : String :=
       match unhex hx >>= Sexp.parse, unhex ht with
       | some s, some t => runCompMon s t
       | _, _ => "err bad-sexp"
+  | ["blocks", hx] =>
+      -- get_block_positions: the lines of the message / title / cell / surface / data blocks
+      (match unhex hx with
+       | some t =>
+           let lines := (t.splitOn "\n").map String.toList
+           let enc (o : Option (List (List Char))) : String :=
+             match o with
+             | none => "-"
+             | some ls => "=" ++ hex (String.ofList (joinLines ls))
+           (match getBlocks lines with
+            | .ok b => s!"ok m{enc b.m} t{enc b.t} c{enc b.c} s{enc b.s} d{enc b.d}"
+            | .error .spurious => "ok error spurious"
+            | .error .empty => "ok error empty")
+       | none => "err bad-hex")
   | ["normfloat", hx] =>
       match unhex hx with
       | some t => "ok " ++ hex (String.ofList (normalizeFloat t.toList))
